@@ -10,7 +10,8 @@
                    (route, host), stored at a time inside that set's clock window, and not older than
                    the time limit at some instant of the lookup's window; it never carries another key;
      Immediate     a lookup of the key just stored (next record, clock windows all equal to one instant)
-                   hits, when the stored size is within the limit;
+                   hits, when the stored size is within the limit; storing such an item does not panic
+                   (a `set` record with aux = 2 is a call that panicked);
      SizeBound     at every position the entries that are still going to be returned later (the next
                    record concerning their key that is a `set` or a hitting `get` is a hitting `get`)
                    have a total size within the limit - i.e. SOME retention schedule with "total size of
@@ -41,7 +42,7 @@ Coherent(e) ==
 
 \* the record before l is the set of the same key, and no time can have passed
 Immediate(e) ==
-  (l > 1 /\ Rec[l - 1].ev = "set" /\ Key(Rec[l - 1]) = Key(e) /\ Rec[l - 1].size <= Limit
+  (l > 1 /\ Rec[l - 1].ev = "set" /\ Rec[l - 1].aux = 0 /\ Key(Rec[l - 1]) = Key(e) /\ Rec[l - 1].size <= Limit
          /\ Rec[l - 1].lo = Rec[l - 1].hi /\ e.lo = e.hi /\ e.lo = Rec[l - 1].lo)
     => e.hit
 
@@ -69,6 +70,9 @@ Next ==
   /\ LET e == Rec[l]
      IN  IF e.ev = "reset"
          THEN last' = [k \in Keys |-> NoLast] /\ bad' = bad
+         ELSE IF e.ev = "set" /\ e.aux = 2
+         THEN /\ last' = last
+              /\ bad' = IF e.size > Limit \/ Len(bad) >= 20 THEN bad ELSE Append(bad, [at |-> l, why |-> "SetPanicked"])
          ELSE IF e.ev = "set"
          THEN LET nl == [last EXCEPT ![Key(e)] = [set |-> TRUE, size |-> e.size, id |-> e.hash, mime |-> e.mime,
                                                    tlo |-> e.lo, thi |-> e.hi]]
